@@ -183,6 +183,8 @@ def rt_rule_event(i, rr):
     e["prule_rb"] = enc_rule(rb)
     pr = PROBES + CAST_PROBES
     e["behaves_same"] = rule_behaviour(obj, pr) == rule_behaviour(rb, pr)
+    # equality must not depend on the objects having been used
+    e["eq"], e["eq_rev"] = e["eq"] and bool(obj == rb), e["eq_rev"] and bool(rb == obj)
     return e
 
 
@@ -212,6 +214,10 @@ def rt_schema_event(i, rrs):
     e["prules_rb"] = [enc_rule(r) for r in rb.rules]
     pr = PROBES + CAST_PROBES
     e["behaves_same"] = schema_behaviour(obj, pr) == schema_behaviour(rb, pr)
+    # equality must not depend on the objects having been used (validated) before
+    e["eq"], e["eq_rev"] = e["eq"] and bool(obj == rb), e["eq_rev"] and bool(rb == obj)
+    rb2 = valida.Schema.from_json_like(back)
+    e["eq"], e["eq_rev"] = e["eq"] and bool(obj == rb2), e["eq_rev"] and bool(rb2 == obj)
     return e
 
 
